@@ -147,12 +147,16 @@ Proof. exact signed_message_ok_or_err. Qed.
 Print Assumptions c08_signed_message_never_panics.
 
 (* ---- the file ---------------------------------------------------------------------- *)
+(* Write first refuses what ReadExchange would refuse (write_refuses e: the fallback
+   URL is not an https URL; b2: a request header named ":url"), then emits exactly
+   the specified file. *)
 Theorem c08_file_conforms : forall e bs, go_exchange e -> int64 (e_status e) ->
-  (write e = Ok bs <-> spec_file e = Some bs).
+  (write e = Ok bs <-> write_refuses e = false /\ spec_file e = Some bs).
 Proof. exact file_conforms. Qed.
 Print Assumptions c08_file_conforms.
 
-Theorem c08_file_eq : forall e, go_exchange e -> int64 (e_status e) -> spec_file e = to_opt (write e).
+Theorem c08_file_eq : forall e, go_exchange e -> int64 (e_status e) ->
+  to_opt (write e) = if write_refuses e then None else spec_file e.
 Proof. exact file_eq. Qed.
 Print Assumptions c08_file_eq.
 
